@@ -969,3 +969,13 @@ VARIANTS += [
     dict(prop="C14", name="wake-looks-in-shard-of-previous-index", expect="SORTED-wakers|same-shard-for-add-and-wake",
          edits=[dict(file=OSF, find="    fn wake(&self, i: usize) {\n        self.shard(i).wake(i);", replace="    fn wake(&self, i: usize) {\n        self.shard(i.saturating_sub(1)).wake(i);")]),
 ]
+
+HIF = "ipa-core/src/report/hybrid_info.rs"
+VARIANTS += [
+    dict(prop="C09", name="impression-info-ignores-trailing-bytes", expect="EXACT-length|HybridImpressionInfo",
+         edits=[dict(file=HIF, find="        let &[key_id] = bytes else {\n            return Err(InvalidHybridReportError::Length(bytes.len(), 1));\n        };", replace="        let Some(&key_id) = bytes.first() else {\n            return Err(InvalidHybridReportError::Length(bytes.len(), 1));\n        };")]),
+    dict(prop="C09", name="conversion-info-accepts-longer-rest", expect="EXACT-length|HybridConversionInfo",
+         edits=[dict(file=HIF, find="        if rest.len() != FIXED_LEN {", replace="        if rest.len() < FIXED_LEN {")]),
+    dict(prop="C09", name="impression-info-length-checked-explicitly", benign=True,
+         edits=[dict(file=HIF, find="        let &[key_id] = bytes else {\n            return Err(InvalidHybridReportError::Length(bytes.len(), 1));\n        };", replace="        if bytes.len() != 1 {\n            return Err(InvalidHybridReportError::Length(bytes.len(), 1));\n        }\n        let key_id = bytes[0];")]),
+]
